@@ -269,7 +269,7 @@ func TestLookupInFlightDuringEvent(t *testing.T) {
 				if got := lookupNow(x, false); got != expect(x) {
 					fail("C13:stale-or-wrong-pod", "lookup %q returned %s, want %s", x, got, expect(x))
 				}
-				n := rapid.SampledFrom([]int{40, 1100}).Draw(t, "burst")
+				n := rapid.SampledFrom([]int{40, 300, 700, 1100}).Draw(t, "burst")
 				armed := make(chan [2]chan struct{}, 1)
 				burstDone := make(chan struct{})
 				go func() {
